@@ -172,6 +172,7 @@ __CPROVER_ensures(g_k >= n || d[g_k] == g_old_sk);
 int g_phase;            /* 0 parse next, 1 parsed (literals pending), 2 literals copied (match pending), 3 last sequence parsed, 4 done */
 size_t g_op;            /* bytes produced so far */
 const u8 *g_lit; u32 g_ll, g_ml, g_dist; size_t g_nseq;
+size_t g_cap;            /* the announced output size (harness) */
 #define LZ4_GHOST_FRAME , g_phase, g_op, g_lit, g_ll, g_ml, g_dist, g_nseq
 #endif
 /*@include lz4_contract.tc@*/
@@ -226,11 +227,13 @@ static void ghost_copy(u8 *d, u8 const *s, size_t n)
         __CPROVER_assert(s == g_lit && n == g_ll, "protocol: literal copy = exactly the parsed literal run");
         g_phase = 2;
     } else if (g_phase == 1 || g_phase == 2) {
-        /* vacuity guard of the unit, on its deepest path: inside the loop (whose body ends in assume(false) under the loop
-           contract, so no flag can be carried to the end of the harness), a literal copy followed by the match copy */
+        /* informational canary on the deepest in-loop path (the loop body ends in assume(false) under the loop contract, so
+           no flag can be carried to the harness's own canary): a literal copy followed by the match copy */
         if (g_phase == 2) CANARY();
         __CPROVER_assert(SAME(s, d) && g_dist >= 1 && (size_t)g_dist <= g_op && OFF(d) - OFF(s) == (long)g_dist && n == g_ml,
                          "protocol: match copy = match_len bytes from match_dist back, inside the data produced so far");
+        __CPROVER_assert(g_op <= g_cap && n <= g_cap - g_op && g_cap - g_op - n >= 5,
+                         "protocol: no match ends closer than LASTLITERALS = 5 bytes to the end of the announced output (end-of-block rule of the format)");
         g_phase = 0; g_nseq++;
     } else if (g_phase == 3) {
         __CPROVER_assert(s == g_lit && n == g_ll, "protocol: final literals = exactly the parsed literal run");
@@ -396,10 +399,10 @@ void h_lz4(void)
     u8 w_b[WB]; FILL(buf + PAD, w_in_n);
 #endif
     g_in = buf + PAD; g_in_lo = (long)PAD; g_outp = out; g_out_lo = (long)PADO;
-    g_phase = 0; g_op = 0; g_nseq = 0;
+    g_phase = 0; g_op = 0; g_nseq = 0; g_cap = w_out_n;
     int r = lz4_decompress(buf + PAD, w_in_n, out, w_out_n);
     if (r >= 0) __CPROVER_assert(g_phase == 4 && (size_t)r == g_op, "success: the block was decoded up to and including the final literals and the result is the number of bytes the copy program produced");
-    /* the unit's CANARY is inside the loop body (ghost_copy); that the exit path with r > 0 is reachable was checked once by hand (cover run, see report) */
+    if (r > 0) CANARY();     /* vacuity guard: the success exit is reachable.  (The second canary, inside ghost_copy, shows that the in-loop path literal copy + match copy is reachable; the driver only evaluates the harness's own canary, the other one is informational: it must be reported FAILURE = reachable in cbmc.json.) */
 }
 #endif
 
